@@ -67,14 +67,56 @@ Print Assumptions c19_deny_sound.
 
 (* ------------------------------------------------------------ enforcement *)
 
-(** For EVERY sequence of client messages (any mix of Q and P/B/D/E/C/S/H, any position,
-    inside or outside transactions, parser on or off, transaction or session pooling,
-    prepared-statement caching on or off, failing checkouts): nothing the plugins rejected
-    is ever written to a server - neither the client's own Q/P message nor a Parse that
-    pgcat itself re-sends for a Bind/Describe from the client's prepared-statement map. *)
+(** For EVERY sequence of client messages (any mix of Q, custom commands and P/B/D/E/C/S/H,
+    any position, inside or outside transactions, transaction or session pooling,
+    prepared-statement caching on or off, failing checkouts, any session parser override):
+    a message that pgcat parsed and the plugins rejected is never written to a server -
+    neither the client's own Q/P message nor a Parse that pgcat itself re-sends for a
+    Bind/Describe from the client's prepared-statement map.  (A Q/P in the trace carries
+    [parsed] = the session parses messages AND sqlparser accepts the text.) *)
 Theorem c19_enforced : forall c ops it, In it (forwarded (trace c ops)) -> bad_item c it = false.
 Proof. exact enforced. Qed.
 Print Assumptions c19_enforced.
+
+(** Which messages are parsed (QueryRouter::parses_messages, 2a7a370).  With the pool's
+    parser on and plugins configured: every message, whatever SET SERVER ROLE did to the
+    session's override - the verdict does not depend on the override ... *)
+Theorem c19_override_cannot_disable_plugins : forall c s m,
+  parser_on c = true -> plugins_on c = true -> arrive_with parses c s m = m.
+Proof. exact arrive_pool. Qed.
+Print Assumptions c19_override_cannot_disable_plugins.
+
+(** ... and with the pool's parser off, SET SERVER ROLE TO 'auto' turns the session's parser
+    on: messages are parsed, and the plugins the pool inherited run, from then on. *)
+Theorem c19_auto_enables_plugins : forall c s m, ov s = Some true -> arrive_with parses c s m = m.
+Proof. exact arrive_auto. Qed.
+Print Assumptions c19_auto_enables_plugins.
+
+(** Regression for F35 (repaired by 2a7a370): the old gate (the session's parser only) as a
+    mutant of the model.  After SET SERVER ROLE TO 'primary' the denied query is forwarded by
+    the mutant and answered with the permission error by the model; same for a batch, for
+    'replica' (there the checkout fails first) and 'any'; 'auto' and 'default' were fine. *)
+Definition c_std : cfg := mkCfg true true false true.
+Example c19_set_server_role_old_refuted :
+  snd (run_with parses_old c_std init [MCmd 1 (CRole RPrimary true) true false; MQ 2 true (Deny 2) true false]) =
+    [EvCmd; EvCheckout; EvFwd [FMsg (MQ 2 false (Deny 2) true false)]; EvRelease] /\
+  trace c_std [MCmd 1 (CRole RPrimary true) true false; MQ 2 true (Deny 2) true false] = [EvCmd; EvErr (EPlugin 2)] /\
+  snd (run_with parses_old c_std init [MCmd 1 (CRole RAny true) true false; MP 2 0 7 true (Intercept 2); MB 3 0; ME 4; MS 5 true false]) =
+    [EvCmd; EvCheckout; EvFwd [FMsg (MP 2 0 7 false (Intercept 2)); FMsg (MB 3 0); FMsg (ME 4); FMsg (MS 5 true false)]; EvRelease] /\
+  trace c_std [MCmd 1 (CRole RAny true) true false; MP 2 0 7 true (Intercept 2); MB 3 0; ME 4; MS 5 true false] = [EvCmd; EvIntercept 2] /\
+  trace c_std [MCmd 1 (CRole RReplica false) true false; MQ 2 true (Deny 2) true false; MQ 3 true Allow true false] =
+    [EvCmd; EvErr (EPlugin 2); EvErr EPool].
+Proof. repeat split. Qed.
+
+(** pool parser off + plugins inherited from the global section: inert until the session says
+    SET SERVER ROLE TO 'auto', enforced from then on, inert again after 'default' *)
+Example c19_auto_with_pool_parser_off :
+  trace (mkCfg false true false true)
+        [MQ 1 true (Deny 1) true false; MCmd 2 (CRole RAuto true) true false; MQ 3 true (Deny 3) true false;
+         MCmd 4 (CRole RDefault true) true false; MQ 5 true (Deny 5) true false] =
+  [EvCheckout; EvFwd [FMsg (MQ 1 false (Deny 1) true false)]; EvRelease; EvCmd; EvErr (EPlugin 3); EvCmd;
+   EvCheckout; EvFwd [FMsg (MQ 5 false (Deny 5) true false)]; EvRelease].
+Proof. reflexivity. Qed.
 
 (** When a pending verdict is consumed, no rejected Parse is left in the client's map
     (0acefb2): a later Bind/Describe of such a name finds nothing. *)
@@ -112,9 +154,9 @@ Print Assumptions c19_batch_dropped.
 (** A rejected simple query is answered at once (error or rows), in either loop, and
     nothing else happens. *)
 Theorem c19_q_answered : forall c s id parsed v po tx,
-  dead s = false -> eff c parsed v <> Allow ->
+  dead s = false -> eff c (parsed && parses c s) v <> Allow ->
   step c s (MQ id parsed v po tx) =
-    (s, [match eff c parsed v with Deny t => EvErr (EPlugin t) | Intercept t => EvIntercept t | Allow => EvEnd end]).
+    (s, [match eff c (parsed && parses c s) v with Deny t => EvErr (EPlugin t) | Intercept t => EvIntercept t | Allow => EvEnd end]).
 Proof. exact q_answered. Qed.
 Print Assumptions c19_q_answered.
 
@@ -179,8 +221,8 @@ Print Assumptions c19_intercept_only_matching.
 
 (* ---------------------------------------------------------------- disabled *)
 
-(** No [plugins] section => execute_plugins allows everything; with plugins or the
-    parser off the machine never answers on a plugin's behalf, no message counts as
+(** No [plugins] section => execute_plugins allows everything; without an effective plugins
+    section the machine never answers on a plugin's behalf, no message counts as
     rejected, and a simple query goes to the server. *)
 Theorem c19_plugins_none_allow : forall user db ast, execute_plugins None user db ast = PAllow.
 Proof. exact exec_disabled. Qed.
@@ -206,14 +248,21 @@ Print Assumptions c19_pool_disabled_noop.
 Theorem c19_disabled_noop : forall c ops, disabled c ->
   forallb (fun e => negb (plugin_event e)) (trace c ops) = true /\
   (forall m, bad_msg c m = false) /\
-  (forall s id p v tx, dead s = false -> pout s = Allow ->
-     In (EvFwd [FMsg (MQ id p v true tx)]) (snd (step c s (MQ id p v true tx)))).
+  (forall s id p v tx, dead s = false -> pout s = Allow -> role_ok s = true ->
+     In (EvFwd [FMsg (MQ id (p && parses c s) v true tx)]) (snd (step c s (MQ id p v true tx)))).
 Proof. exact disabled_noop. Qed.
 Print Assumptions c19_disabled_noop.
 
+(** The pool's parser off and no SET SERVER ROLE TO 'auto' in the session: nothing is parsed,
+    nothing is ever answered by a plugin. *)
+Theorem c19_parser_off_noop : forall c ops, parser_on c = false ->
+  forallb (fun m => negb (is_auto m)) ops = true ->
+  forallb (fun e => negb (plugin_event e)) (trace c ops) = true.
+Proof. exact parser_off_noop. Qed.
+Print Assumptions c19_parser_off_noop.
+
 (* ------------------------------------------------ non-vacuity / validation *)
 
-Definition c_std : cfg := mkCfg true true false true.
 Definition s_secret : bytes := [115; 101; 99; 114; 101; 116]%N.
 Definition S_SECRET : bytes := [83; 69; 67; 82; 69; 84]%N.
 Definition s_public : bytes := [112; 117; 98; 108; 105; 99]%N.
